@@ -3,12 +3,20 @@
 
    trace lines (ndjson); every case is a reset followed by one codec (or panic) event:
      {"ev":"reset","case":n,"hdr":{"src":"tlc"|"random"|...}}
-     {"ev":"codec","enc":"serde"|"pfa","be":b,"mode":"full"|"trunc"|"corrupt","cpos":i,
+     {"ev":"codec","enc":"serde"|"pfa","be":b,"mode":"full"|"trunc"|"corrupt","cpos":i,"via":"plain"|<entry point>,"tops":[TREE,...],
       "args_in":[{"kind":k,"w":w,"raw":[bytes],"num":[[bytes],...]},...],
       "paylen":P,"args_out":[{"ti":[lo16,hi16],"be":b,"off":o,"raw":[bytes]},...],"text_ok":b,"text":[bytes]}
      {"ev":"panic","msg":...}                the code under test panicked (no action matches)
-     {"ev":"refused","enc":..,"lens":[n,..]}  the encoder returned an error; lens[i] = length the 16-bit length field of argument i
+     {"ev":"refused","enc":..,"lens":[n,..],"via":..,"tops":[..]}
+                                             the encoder returned an error; lens[i] = length the 16-bit length field of argument i
                                              would have to carry (0 for fixed-size arguments)
+   via   "plain": args_in are the values, each handed to the encoder as one plain value (tops = []).  Any other value: the
+         values were handed to the serde encoder as NESTED SHAPES (VerbShapes.tla) through that entry point; args_in = [] and
+         tops are the handed trees  TREE = {"t":node type,"a":ARG,"name":[bytes],"c":[TREE,...]}  (a = the value of a
+         "leaf" / the UTF-8 bytes of a "char" as a strU argument, name = the bytes of a variant / field name).  The contract
+         derives the handed values itself (CLeaves): names are optional arguments, a "wrapper" around exactly one raw-bytes
+         value is an ASCII-typed string, a tree with anything else below a "wrapper" is judged for bounds only; the encoder may refuse
+         every form that is not a plain sequence of leaves.
    enc   serde = Serializer / dlt_args! (native byte order),  pfa = payload_from_args (both byte orders)
    raw   of a number: the bytes of the ORIGINAL value, little endian; of a bool: one byte 0/1; of a string / raw
          argument: the bytes handed to the encoder (the serde string encoder terminates with NUL itself)
@@ -33,7 +41,7 @@
    so the decoder misreads everything from that argument on.  Deviation action KF_Codec: only enc = "pfa", only with
    such an argument present, only if the strict contract fails, and the arguments before the first empty one must
    still be faithful and all slices in bounds.                                                                     *)
-EXTENDS VerbPayload, Json, IOUtils
+EXTENDS VerbShapes, Json, IOUtils
 
 CONSTANT KF_C18_EmptyArgNoLen
 
@@ -211,8 +219,22 @@ CodecOk(e) == /\ InDomain(e)
                    [] e.mode = "trunc" -> NOut(e) <= NIn(e) /\ FaithfulUpTo(e, NOut(e))
                    [] OTHER            -> AllSlicesIn(e) /\ FaithfulUpTo(e, Minimum(Minimum(NOut(e), e.cpos - 1), NIn(e)))
 
+\* ---------------------------------------------------------------- nested shapes handed to the serde encoder
+\* the argument record a leaf descriptor of a recorded tree stands for
+LeafArg(d) == IF d.name THEN [kind |-> "strU", w |-> 0, raw |-> d.nd.name, num |-> <<>>]
+              ELSE IF d.ascii /\ d.nd.a.kind = "rawd" THEN [d.nd.a EXCEPT !.kind = "strA"] ELSE d.nd.a
+RECURSIVE KeepArgs(_, _, _)
+KeepArgs(D, k, S) == IF k > Len(D) THEN <<>> ELSE (IF k \in S THEN <<>> ELSE <<LeafArg(D[k])>>) \o KeepArgs(D, k + 1, S)
+\* only a "wrapper" around exactly one raw-bytes value has a fixed meaning (an ASCII-typed string)
+JudgedTops(D) == \A k \in 1..Len(D) : D[k].ascii => (D[k].solo /\ ~D[k].name /\ D[k].nd.t = "leaf" /\ D[k].nd.a.kind = "rawd")
+ShapedOk(e) == LET D == FormLeaves(e) IN
+               /\ e.enc = "serde" /\ e.mode = "full" /\ e.via \notin {"plain"}
+               /\ IF JudgedTops(D) THEN \E S \in SUBSET OptIdx(D) : CodecOk([e EXCEPT !.args_in = KeepArgs(D, 1, S)])
+                                    ELSE AllSlicesIn(e)
+CodecOkAny(e) == IF e.via = "plain" THEN CodecOk(e) ELSE ShapedOk(e)
+
 Codec == /\ Ev("codec") /\ phase = "running"
-         /\ CodecOk(Cur)
+         /\ CodecOkAny(Cur)
          /\ phase' = "ended" /\ UNCHANGED <<case, viol, kfUsed>>
 
 \* named deviation (known finding): see header
@@ -220,7 +242,7 @@ EmptyVarAt(e) == {i \in 1..NIn(e) : e.args_in[i].kind \in VarKinds /\ Len(e.args
 FirstEmpty(e) == CHOOSE i \in EmptyVarAt(e) : \A j \in EmptyVarAt(e) : i <= j
 KF_Codec == /\ KF_C18_EmptyArgNoLen
             /\ Ev("codec") /\ phase = "running"
-            /\ Cur.enc = "pfa" /\ InDomain(Cur) /\ EmptyVarAt(Cur) # {}
+            /\ Cur.enc = "pfa" /\ Cur.via = "plain" /\ InDomain(Cur) /\ EmptyVarAt(Cur) # {}
             /\ ~CodecOk(Cur)
             /\ AllSlicesIn(Cur) /\ FaithfulUpTo(Cur, Minimum(NOut(Cur), FirstEmpty(Cur) - 1))
             /\ (Cur.mode = "corrupt" => FaithfulUpTo(Cur, Minimum(Minimum(NOut(Cur), Cur.cpos - 1), FirstEmpty(Cur) - 1)))
@@ -230,8 +252,10 @@ KF_Codec == /\ KF_C18_EmptyArgNoLen
 \* the encoder may refuse (return an error for) a value it cannot represent: a string / raw argument whose 16-bit length field
 \* would overflow (lens[i] = bytes the length field would have to announce, incl. the terminator the serde encoder adds).
 \* Refusing anything that fits is not allowed; accepting what does not fit shows up as a `codec` event that fails CodecOk.
+\* Values handed over as nested shapes: every form that is not a plain sequence of typed values may be refused as well.
 Refused == /\ Ev("refused") /\ phase = "running"
-           /\ \E i \in 1..Len(Cur.lens) : Cur.lens[i] > 65535
+           /\ \/ \E i \in 1..Len(Cur.lens) : Cur.lens[i] > 65535
+              \/ (Cur.via # "plain" /\ ~PlainForm(Cur))
            /\ phase' = "ended" /\ UNCHANGED <<case, viol, kfUsed>>
 
 \* ---------------------------------------------------------------- recovery
